@@ -93,6 +93,25 @@ CLAIMED.update({
    note=PROG_NOTE),
 })
 
+CLAIMED.update({
+ "C02": dict(engine="expr", cat="model_checking", ref="6.C02",
+   technique="TLC: Expr.tla (gather / evaluation over a term grammar) model-checked against plain substitution; ExprTrace.tla compares what real programs built from terms returned (shape, exact types, identity of node-free parts, argument binding, keyword order, unpack) with Exp(term); schedule independence via executions under the deterministic scheduler",
+   text="The specification is the reference interpreter: which containers are rebuilt, which objects are passed through untouched, dict collision and set collapse rules. The complete family of small terms plus seeded deeper ones, argument lists and unpack lengths are run on the real library (several worker counts, both schedulers) and judged by TLC; fault-free executions under the deterministic scheduler (incl. bounded-preemption enumeration around joins) must return the value of direct evaluation.",
+   note="Trusted: TLC; sentinel objects stand for arbitrary values (the value domain of user functions is outside a TLA+ model); the deterministic scheduler for the schedule part. Bounded by term depth/width."),
+ "C16": dict(engine="engine", cat="model_checking", ref="6.C16",
+   technique="TLC: Physical.tla (result slots, BoundCalls, what uberjob can still reach) checked for all consumer relations on 4 calls; PhysicalTrace.tla validates weak-reference liveness snapshots (after gc) taken at every call boundary and 'completed' notification of real executions under the deterministic scheduler",
+   text="ReleasedAfterLastConsumer is an invariant of the slot/BoundCall model; on the real engine, results are fresh weak-referenceable objects and the set still alive is logged at every call start, call end and completion notification, for random plans, outputs, worker counts, schedulers and schedules; TLC requires every live result to be the output, a result of a call not yet wound up, or consumed by an unfinished call.",
+   note="Trusted: TLC; gc.collect() + weak references as the liveness observation; the deterministic scheduler. Fault-free runs only (the property's quantifier); a failing consumer that keeps its arguments alive is outside what this check decides."),
+ "C18": dict(engine="timenorm", cat="model_checking", ref="6.C18",
+   technique="TLC: TimeNorm.tla decision table (zones with a DST fall-back, instants on a grid, naive-local / aware representations) checked exhaustively; the same table executed on the real stale check in processes under 5 TZ settings (incl. real files with os.utime), validated by TimeNormTrace.tla which resolves what the datetime objects carried to instants",
+   text="DecisionDependsOnInstantsOnly holds for the repaired normalisation on the whole table and is refuted by TLC for the pre-fix one (non-vacuity); every pair of instants around each zone's fall-back x every pair of representations x {upstream time, fresh_time} is run through uberjob.run and judged by TLC on instants.",
+   note="Trusted: TLC; zoneinfo's description of the zones; TZ + time.tzset() switching the process zone. Pairs of times only (the decision is a disjunction)."),
+ "C19": dict(engine="attribution", cat="model_checking", ref="6.C19",
+   technique="TLC: Attribution.tla (capture depth, truncation, inheritance of the creating operation's stack, rendering order) - a finite table enumerated completely; each row is a generated script run in a fresh interpreter whose report is validated by AttributionTrace.tla",
+   text="Every combination of creating operation, failing physical call (user call, implicit/explicit gather, unpack, store write, read-back, source read, modified-time query, output gather), stack depth 1..6/8 and helper reuse is executed; the expected frames are read from the interpreter on the creating line itself; CallError.call, the frame chain, the truncation marker and the rendered order must match the table.",
+   note="Trusted: TLC; sys._getframe as the ground truth for the user's stack; MAX_TRACEBACK_DEPTH = 3 is a constant of the specification."),
+})
+
 checks = []
 for i in ids:
     if i not in CLAIMED:
@@ -121,10 +140,13 @@ m = {
         "add_only": True,
     },
     "engines": [
-        {"name": "engine", "path": "/verif/spec/Engine.tla", "serves_properties": ["C01", "C04", "C06", "C07", "C10", "C17"],
+        {"name": "engine", "path": "/verif/spec/Engine.tla", "serves_properties": ["C01", "C04", "C06", "C07", "C10", "C16", "C17"],
          "kind_free_text": "TLA+ Engine.tla refining RunAbs.tla, checked by TLC; RunAbsTrace.tla monitor over executions of the real code under vf/detsched.py"},
         {"name": "filestore", "path": "/verif/spec/FileStore.tla", "serves_properties": ["C11", "C12"],
          "kind_free_text": "TLA+ FileStore.tla (staged write protocol + register) checked by TLC; FileStoreTrace.tla monitor over interposed file-operation traces of the real stores with injected faults"},
+        {"name": "expr", "path": "/verif/spec/Expr.tla", "serves_properties": ["C02"], "kind_free_text": "TLA+ Expr.tla (gather/evaluation reference semantics) + ExprTrace.tla monitor over programs built from terms"},
+        {"name": "timenorm", "path": "/verif/spec/TimeNorm.tla", "serves_properties": ["C18"], "kind_free_text": "TLA+ TimeNorm.tla decision table + TimeNormTrace.tla over decisions of the real stale check under several TZ"},
+        {"name": "attribution", "path": "/verif/spec/Attribution.tla", "serves_properties": ["C19"], "kind_free_text": "TLA+ Attribution.tla table + AttributionTrace.tla over reports of generated scripts"},
         {"name": "progress", "path": "/verif/spec/Progress.tla", "serves_properties": ["C15", "C20"],
          "kind_free_text": "TLA+ Progress.tla: monitor (ProgressTrace.tla) for recorded notifications, generator (ProgressGen.tla, TLC simulation) of sequences replayed into the bundled observers"},
         {"name": "caching", "path": "/verif/spec/Caching.tla", "serves_properties": ["C03", "C05", "C08", "C09", "C13", "C14"],
